@@ -80,6 +80,17 @@ impl Cut for FutureGroupCut {
                 self.group().extend(cs.into_iter().map(|c| SFut(Child::new(c))));
                 OpRes::Keys(vec![-1; n])
             }
+            Op::FromIter(cs) => {
+                // `FromIterator`: the group the caller starts with is built by `collect()`
+                let n = cs.len();
+                let g: FutureGroup<SFut> = cs.into_iter().map(|c| SFut(Child::new(c))).collect();
+                self.g = match self.g {
+                    FG::Plain(_) => FG::Plain(Box::new(g)),
+                    FG::Keyed(_) => FG::Keyed(Box::new(g.keyed())),
+                };
+                self.keys.clear();
+                OpRes::Keys(vec![-1; n])
+            }
         }
     }
     fn view(&mut self, keys: &[i64]) -> Option<View> {
@@ -162,6 +173,16 @@ impl Cut for StreamGroupCut {
                 OpRes::Unit
             }
             Op::Extend(_) => OpRes::Unsupported,
+            Op::FromIter(cs) => {
+                let n = cs.len();
+                let g: StreamGroup<SStream> = cs.into_iter().map(|c| SStream(Child::new(c))).collect();
+                self.g = match self.g {
+                    SG::Plain(_) => SG::Plain(Box::new(g)),
+                    SG::Keyed(_) => SG::Keyed(Box::new(g.keyed())),
+                };
+                self.keys.clear();
+                OpRes::Keys(vec![-1; n])
+            }
         }
     }
     fn view(&mut self, keys: &[i64]) -> Option<View> {
